@@ -92,7 +92,7 @@ VF_HARNESS(clear_k1) { t_clear<1>(); vf_reach("clear_k1"); }
 VF_HARNESS(clear_k0) { t_clear<0>(); vf_reach("clear_k0"); }
 VF_HARNESS(clear_k4) { t_clear<4>(); vf_reach("clear_k4"); }
 
-#if DIM == 2
+#if DIM >= 2
 VF_HARNESS(reshape_keeps_flat_sequence) {   // reshape to extents with the same element count preserves the flat element sequence
   Slot a; make_state<1>(a, 10, 0); SLOT(2);
   L m[D]; draw_extents<D>(m, 1, NB * NB); vf_assume(prod<D>(m) == prod<D>(a.n));
